@@ -415,9 +415,12 @@ type proximalWrapper struct {
 }
 
 func (obj proximalWrapper) Eval(x DenseFloat64Vector, w DenseFloat64Vector) {
-  obj.ProximalOperatorType.Eval(x, w)
-  // do not regularize intercept
-  x.AT(0).SET(w.AT(0))
+  // do not regularize intercept (and keep it out of the norm of the
+  // l2 operator)
+  if len(x) > 0 {
+    obj.ProximalOperatorType.Eval(x[1:], w[1:])
+    x.AT(0).SET(w.AT(0))
+  }
 }
 
 /* -------------------------------------------------------------------------- */
